@@ -40,6 +40,14 @@ intersect, get and pop operations."  Models: `Tahoe/Spans/Model.lean` (`Spans`),
 | `a += a`, `a -= a` (operand is the object being mutated; repaired in /repo 13d6c66) | model = fold over a snapshot (`Op.union`/`Op.diff` in `spans_history`); correspondence on named-value histories + monitor probe |
 | negative offsets / lengths (Python ints) | not covered (`Nat`; `Spans` asserts `start >= 0`, `length > 0`) |
 
+As built: 43 theorems, none `_partial`, axioms ⊆ {propext, Classical.choice, Quot.sound}.  Every model definition
+(`add`, `remove`, `removeLit`, `inter`, `addAll`, `removeAll`, `containsRange`, `len`, `each`, `spBool`, `sstepQ`/`strace`,
+`dadd`, `dremove`, `dget`, `dpop`, `dlen`, `dDump`, `dBool`, `getSpans`, `dstepQ`/`dtrace`, `rstep` with `spAnd`/`spSub`/`spOr`/
+`spCopy`/`dCopy`) is reached from `Drv/C37.lean` (`spans`, `dspans`, `strace`, `dtrace`, `reg`) and compared with `util/spans.py` by
+`harness/props/c37.py`.  Remaining trusted deviations of the transcription: insert/append + sort as ordered insertion, `add`
+taking the max of the absorbed ends (the code: the last), loops as structural recursion, `DataSpans.add` case A inlined.
+One defect was found and repaired in /repo (13d6c66: `a -= a`); seeded changes C37-a..e are each caught by a fixed-corpus case.
+
 Part 1: `Spans` behaves like a set of integers.  `WF` is the class invariant checked by `_check`
 (sorted, positive lengths, a gap between consecutive spans); `mem s x` is "x is in the set". -/
 namespace Tahoe.C37
